@@ -15,6 +15,7 @@ import json
 import os
 import random
 import re
+import shutil
 import subprocess
 
 import common as C
@@ -748,6 +749,75 @@ def pick(dags, n, rnd, must=()):
     return rnd.sample(dags, n)
 
 
+def dotdot_layouts(res, tier):
+    """Include names with `..` components next to symbolic links: which file a `..` reaches is decided by the file
+    system (the physical parent of the directory), not by the spelling.  Layouts: a linked include directory
+    whose headers include `../common/x.h`; `..` twice; the link reached through -I; a plain directory as control.
+    Oracle: `clang -M` on the same command line (real paths); every listed path must exist."""
+    base = C.workdir("c17-dotdot")
+    layouts = []
+    for k, (linked, ups, via_I) in enumerate([(True, 1, False), (True, 2, False), (True, 1, True), (False, 1, False),
+                                              (False, 2, True), (True, 2, True)]):
+        d = os.path.join(base, "l%d" % k)
+        real_inc = os.path.join(d, "versions", "2.1", "include", "sub") if ups == 2 else os.path.join(d, "versions", "2.1", "include")
+        os.makedirs(real_inc)
+        os.makedirs(os.path.join(d, "versions", "2.1", "common"))
+        os.makedirs(os.path.join(d, "sdk"))
+        # decoys at the places a lexical reading of the names would look
+        os.makedirs(os.path.join(d, "sdk", "common"))
+        os.makedirs(os.path.join(d, "common"))
+        for decoy in (os.path.join(d, "sdk", "common", "types.h"), os.path.join(d, "common", "types.h")):
+            with open(decoy, "w") as f:
+                f.write("#error decoy: a lexically folded name leads here\n")
+        with open(os.path.join(d, "versions", "2.1", "common", "types.h"), "w") as f:
+            f.write("typedef int api_len_t;\n#define API_N 3\n")
+        with open(os.path.join(real_inc, "api.h"), "w") as f:
+            f.write('#include "%scommon/types.h"\nstruct api { api_len_t n[API_N]; };\n' % ("../" * ups))
+        top = os.path.join(d, "sdk", "include")
+        target = os.path.join("..", "versions", "2.1", "include")
+        if linked:
+            os.symlink(target, top)
+        else:
+            # control: a real directory at the spelled place
+            os.makedirs(os.path.join(top, "sub") if ups == 2 else top)
+            shutil.copy(os.path.join(real_inc, "api.h"), os.path.join(top, "sub", "api.h") if ups == 2 else os.path.join(top, "api.h"))
+            os.makedirs(os.path.join(d, "sdk", "common"), exist_ok=True)
+            with open(os.path.join(d, "sdk", "common", "types.h"), "w") as f:
+                f.write("typedef int api_len_t;\n#define API_N 3\n")
+            if ups == 2:
+                with open(os.path.join(d, "common", "types.h"), "w") as f:
+                    f.write("typedef int api_len_t;\n#define API_N 3\n")
+        spelled = ("sub/api.h" if ups == 2 else "api.h")
+        with open(os.path.join(d, "main.h"), "w") as f:
+            f.write('#include %s\n' % ('<%s>' % spelled if via_I else '"sdk/include/%s"' % spelled))
+        cargs = ["-Isdk/include"] if via_I else []
+        layouts.append((k, d, cargs, linked, ups, via_I))
+    n = 0
+    for k, d, cargs, linked, ups, via_I in layouts:
+        pc = subprocess.run(["clang", "-M", "-MF", "clang.d"] + cargs + ["main.h"], cwd=d, stdout=subprocess.PIPE,
+                            stderr=subprocess.PIPE, text=True)
+        if pc.returncode != 0:
+            raise C.ToolError("clang -M rejected the `..` layout %d: %s" % (k, pc.stderr[-400:]))
+        want = {os.path.realpath(os.path.join(d, x)) for x in read_clang_depfile(open(os.path.join(d, "clang.d")).read())}
+        p = subprocess.run([C.BINDGEN, "--formatter=none", "main.h", "-o", "out.rs", "--depfile", "cli.d", "--"] + cargs,
+                           cwd=d, stdout=subprocess.PIPE, stderr=subprocess.PIPE, text=True, timeout=120)
+        if p.returncode != 0:
+            res.violation("dotdot-layout:generation-failed", {"layout": k, "stderr": p.stderr[-400:]})
+            continue
+        _, deps = read_depfile(open(os.path.join(d, "cli.d")).read())
+        got = {os.path.realpath(os.path.join(d, x)) for x in deps}
+        shape = "linked=%s:ups=%d:viaI=%s" % (linked, ups, via_I)
+        ghosts = sorted(x for x in deps if not os.path.exists(os.path.join(d, x)))
+        if ghosts:
+            res.violation("depfile-cli:not-read:nonexistent-path:" + shape, {"layout": k, "paths": ghosts, "dir": d})
+        elif want - got:
+            res.violation("depfile-cli:unreported:dotdot:" + shape, {"layout": k, "missing": sorted(want - got), "listed": sorted(got)})
+        elif got - want:
+            res.violation("depfile-cli:not-read:dotdot:" + shape, {"layout": k, "extra": sorted(got - want)})
+        n += 1
+    res.add(dotdot_symlink_layouts=n)
+
+
 def run(res, tier):
     res.assumptions += [
         "reference dep-file reader = dep-info grammar (`\\ ` -> space, `\\\\` -> backslash, target ends at the first ':'); "
@@ -893,4 +963,5 @@ def run(res, tier):
     for c in cases[:3]:
         res.sample_case({"case": c["id"], "files": c["rel"], "clang_args": c["clang_args"],
                          "spec_read": [c["rel"][f] for f in c["dag"]["read"]]})
+    dotdot_layouts(res, tier)
     res.cov["exhaustive"] = False
